@@ -140,7 +140,12 @@ class MessageSchema(Schema):
         """Transform message string to a dict."""
         # The payload is the last field and may contain the delimiter.
         list_data = in_data.rstrip().split(DELIMITER, len(self.fields) - 1)
-        return dict(zip(self.fields, list_data, strict=False))
+        if len(list_data) != len(self.fields):
+            raise ValidationError(
+                f"The message must have {len(self.fields)} fields "
+                f"separated by {DELIMITER}.",
+            )
+        return dict(zip(self.fields, list_data, strict=True))
 
     @post_load
     def make_message(self, data: dict, **kwargs: Any) -> Message:  # noqa: ANN401, ARG002
